@@ -1,5 +1,6 @@
 #![allow(dead_code, unreachable_patterns, clippy::too_many_arguments, clippy::type_complexity)]
 mod api;
+mod asyncmc;
 mod config;
 mod explore;
 mod handle;
